@@ -546,6 +546,7 @@ class Recorder(object):
         self.cur = None
         self.raw_pending = []
         self._listeners = []
+        self.attached = []
         self.install()
 
     # -- event plumbing
@@ -562,6 +563,13 @@ class Recorder(object):
             for name, kind in (('after_insert', 0), ('after_update', 1), ('after_delete', 2)):
                 self.listen(cls, name, self._mapper_listener(kind))
         self.listen(self.env.engine, 'before_execute', self.before_execute)
+
+    def attach(self, other_session):
+        """record the flushes of a second application session that works on the same connection"""
+        self.attached.append(other_session)
+        self.listen(other_session, 'before_flush', self.before_flush, insert=True)
+        self.listen(other_session, 'after_flush', self.after_flush)
+        self.listen(other_session, 'after_flush_postexec', self.after_flush_postexec)
 
     def remove(self):
         for target, name, fn in self._listeners:
@@ -608,7 +616,7 @@ class Recorder(object):
         def fn(mapper, connection, target):
             if self.cur is None or type(target) not in self.cidx:
                 return
-            if self.sa.orm.object_session(target) is not self.session:
+            if not any(self.sa.orm.object_session(target) is x for x in [self.session] + self.attached):
                 return
             ci, colchg, relchg = self._flags(target)
             st = self.sa.inspect(target)
@@ -1131,6 +1139,18 @@ def run_program(env, cfg, prog, record=True, plain=False, fault=None, emulate_ac
                     s.flush()
                 elif kind == 'query':
                     s.query(classes[op[1]]).all()
+                elif kind == 'helper':
+                    # ['helper', notekey]: a second application session on the SAME connection, inside the running
+                    # database transaction, adds a (non-versioned) Note and is committed - it only joined the
+                    # transaction, nothing is committed in the database - and closed
+                    h_ = sa.orm.Session(bind=s.connection(), autoflush=False)
+                    if rec:
+                        rec.attach(h_)
+                    try:
+                        h_.add(classes[3](id=op[1], a=1))
+                        h_.commit()
+                    finally:
+                        h_.close()
                 elif kind == 'readnames':
                     # the application looks at the record of the running transaction (entity_names / changed_entities)
                     # between two flushes and keeps the object
